@@ -17,6 +17,10 @@ Theorem C19_scheduled_order_is_evaluable :
   forall scope fuel B cs l, schedule scope fuel B cs = Some l -> sched scope B cs.
 Proof. exact schedule_sound. Qed.
 
+Theorem C19_scheduled_order_keeps_every_conjunct_once :
+  forall scope fuel B cs l, schedule scope fuel B cs = Some l -> Permutation cs l.
+Proof. exact schedule_is_permutation. Qed.
+
 Theorem C19_range_restriction_does_not_depend_on_order :
   forall scope B cs cs', Permutation cs cs' ->
   (exists l, schedule scope (S (length cs)) B cs = Some l) <->
